@@ -13,7 +13,7 @@ git -C /repo worktree add -q --detach "$WT" HEAD || exit 2
 cleanup(){ git -C /repo worktree remove --force "$WT" >/dev/null 2>&1; rm -rf "$WT"; }
 trap cleanup EXIT
 cd "$WT"
-PLACE=$(grep -m1 -oE 'place in: *[A-Za-z0-9_/.-]+' "$MUT/demo_test.go" | sed 's/place in: *//')
+PLACE=$(grep -m1 -oE '(place in|dest): *[A-Za-z0-9_/.-]+' "$MUT/demo_test.go" | sed -E 's/(place in|dest): *//')
 PLACE=${PLACE%/}
 [ -z "$PLACE" ] && { echo "no place-in header" | tee -a "$LOG"; exit 2; }
 DEMO="$PLACE/zz_demo_${NAME//-/_}_test.go"
